@@ -13,7 +13,15 @@ EVIDENCE_DIR = os.path.join(ROOT, "evidence")
 REPLAY_DIR = os.path.join(ROOT, "replays")
 
 
+def _scratch():
+    """Mutation-testing runs (VERIF_NO_EVIDENCE=1) write evidence/replays under .scratch instead."""
+    return os.environ.get("VERIF_NO_EVIDENCE") == "1"
+
+
 def write_evidence(pid, tier, seed, coverage, wall_s, violations, assumptions, level="model_checking", extra=None):
+    global EVIDENCE_DIR
+    if _scratch():
+        EVIDENCE_DIR = os.path.join(ROOT, ".scratch", "evidence")
     os.makedirs(EVIDENCE_DIR, exist_ok=True)
     doc = {
         "property_id": pid,
@@ -37,7 +45,7 @@ def write_evidence(pid, tier, seed, coverage, wall_s, violations, assumptions, l
 
 
 def write_replay(pid, tier, violation):
-    d = os.path.join(REPLAY_DIR, pid)
+    d = os.path.join(ROOT, ".scratch", "replays", pid) if _scratch() else os.path.join(REPLAY_DIR, pid)
     os.makedirs(d, exist_ok=True)
     doc = {"property": pid, "tier": tier}
     doc.update(A.to_jsonable(violation))
